@@ -353,6 +353,18 @@ func (e *Exec) applyCallback(con *Contract, sig *types.Signature, args []Value, 
 			e.setComp(s, "G|"+p.db+sd.Path, sd.Sort, "(ite "+committed+" "+txv+" "+cur+")")
 		}
 	}
+	// a ghost counter named txCommits, if declared, counts the committed transactions
+	if g := e.CS.Ghost["txCommits"]; g != nil {
+		cur := e.compTerm(s, "G|txCommits", "Int")
+		e.frameCheck("G|txCommits", "")
+		e.setComp(s, "G|txCommits", "Int", "(ite "+committed+" (+ "+cur+" 1) "+cur+")")
+		// and txStarted the started ones
+	}
+	if g := e.CS.Ghost["txStarted"]; g != nil {
+		cur := e.compTerm(s, "G|txStarted", "Int")
+		e.frameCheck("G|txStarted", "")
+		e.setComp(s, "G|txStarted", "Int", "(+ "+cur+" 1)")
+	}
 	return res
 }
 
